@@ -39,6 +39,14 @@ CHECKS = {
              text='K: json::to_vec of a symbolic non-finite f64/f32 (value, Some, struct field) and of a bool map key yields exactly the Conjure spelling bytes, for every NaN payload and sign. M: each overridden Behavior leaf (serialize_f32/f64/bool of json/smile value and key behaviours) run from MIR against an event recorder emits "NaN"/"Infinity"/"-Infinity" exactly for the three classes and the untouched number otherwise (keys as strings); the JSON client value/key visitors turn exactly those spellings (all strings <= 9 bytes) back into the three classes and bool keys from "true"/"false". Round trip = these two halves + event transport by serde_json/serde_smile (assumed).',
              note='Trusted: Kani/CBMC; mirsym + recorder/event-player models of the inner (de)serializers. Outside: Override re-wrapping at depth > 1 (one level is executed in C05/C13), Base64 of binary, finite-float text.',
              ref='§5 C01'),
+ 'C02': dict(engine='M', technique='symbolic execution of the union protocol code emitted by the real generator (Visitor_::visit_map, Variant_, VariantVisitor_, Serialize) together with conjure_object::private (UnionField_, UnionTypeField_) over symbolic key/value event documents; z3 compares with the wire specification',
+             text='The real conjure-codegen of /repo generates the IR family of /verif/gen-crates/types (default and exhaustive); the MIR of the generated union code is executed on documents of <= 3 members with keys from {type, two listed variants, two different unlisted names} in every order, symbolic type value and payload decodability; the solver decides accepted <=> exactly {type: v, v: payload} in either order (unlisted v only when not exhaustive), the variant delivered, and that serialization emits type then variant. Counterexamples become JSON documents replayed on the generated types.',
+             note='Trusted: mirsym; event-level models of MapAccess/Deserializer, abstract payloads. Claimed for the union protocol of the IR family only; object field protocols (serde-derive output) and aliases are exercised natively (twins) but not decided symbolically; leaves are covered by C15/C16/C01.',
+             ref='§5 C02'),
+ 'C10': dict(engine='M', technique='symbolic execution of generated enum FromStr/FromPlain/as_str and union protocol code (both configurations) plus conjure_object::private::{valid_enum_variant, Variant} from MIR over all bounded names; z3 decides classification',
+             text='For all valid-UTF-8 enum names <= 8 bytes: default configuration accepts exactly listed or well-formed ([A-Z0-9_]+) names, classifies listed values as themselves and never as unknown, exposes the name unchanged; exhaustive accepts exactly the listed ones. Unions: as C02 with two different unlisted names (unknown variants survive with their name when not exhaustive, are rejected when exhaustive, listed variants are never unknown). Counterexamples replayed on the generated types (FromStr, PLAIN and JSON).',
+             note='Trusted: mirsym; the serde-derive Deserialize of the generated enum (untagged arm) is not executed symbolically (native twins only). Outside: longer names, payload shapes (C13).',
+             ref='§5 C10'),
  'C05': dict(engine='M', technique='symbolic execution of the whole conjure-serde unknown-field wrapper chain from MIR (31 repository functions incl. fn-local Delegator types) over symbolic object documents; z3 decides reject-and-name (server) / accept-and-drop (client)',
              text='JSON and Smile, server and client deserialize_struct entry points are executed from MIR down through Override, UnknownFieldsBehavior, StructVisitor/StructMapAccess, Key/ValueDeserializeSeed, WrappingDeserializer, DelegatingDeserializer/Visitor with an event-playing inner deserializer and a derive-like client visitor; documents have <= 2 members with keys from the declared fields (0, 1 or 2 of them) plus one undeclared key in every order. Server: Err(unknown_field(key)) naming exactly the injected key iff it occurs; client: always Ok with exactly the declared members. Counterexamples replayed on the real deserializers.',
              note='Trusted: mirsym; models of the inner serde_json/serde_smile event stream and of a serde-derive struct visitor. One nesting level is decided exhaustively; deeper nesting re-enters the same wrappers (C01).',
